@@ -52,7 +52,7 @@ impl Call {
     fn start_idx(&self) -> Idx {
         use vdb::ops::IdxDelta::*;
         match self {
-            Call::Reindex(AddTags) => Idx { tags: false, ..Idx::ALL },
+            Call::Reindex(AddTags | AddTagsDropBody) => Idx { tags: false, ..Idx::ALL },
             Call::Reindex(AddBody | AddBodyDropName) => Idx { body: false, ..Idx::ALL },
             Call::Reindex(AddEmb | AddEmbDropTags) => Idx { emb: false, ..Idx::ALL },
             Call::Reindex(AddName) => Idx { name: false, ..Idx::ALL },
@@ -1589,6 +1589,7 @@ fn main() {
         // one callback that creates an index and removes another
         Call::Reindex(vdb::ops::IdxDelta::AddEmbDropTags),
         Call::Reindex(vdb::ops::IdxDelta::AddBodyDropName),
+        Call::Reindex(vdb::ops::IdxDelta::AddTagsDropBody),
     ];
     let mut items = Vec::new();
     for c in &cancel_calls {
